@@ -45,6 +45,15 @@ DIRECTIONS = {
          "model or the callback list while it is being called; two documented features used together that are each "
          "exercised alone by the examples (saving during training with early stopping, statistics with user-given chains "
          "and overwrite, rotation with a user dictionary passed positionally).",
+    "7": "THIS ROUND IS DIFFERENT: produce FOUR changes (directories seeded/1 .. seeded/4), each a SMALL slip of the kind a "
+         "mutation tool or a tired maintainer produces - one line, at most three tokens changed: an off-by-one in a range or "
+         "a slice, a sign, `<` for `<=`, `and` for `or`, the wrong one of two similar variables (v / vp, samples / samples_, "
+         "num_hidden / num_visible, rbm_am / rbm_ph, real / imag, left / right), two swapped arguments, a dropped `.t()` / "
+         "`.clone()` / `abs`, a wrong default value, a wrong axis (dim=0 for dim=1), `+=` for `=`, a dropped term of a sum.  "
+         "Each must still pass the test-suite and must NOT be wrong for every input (requirement (c) stands: it needs "
+         "non-zero biases, a non-square shape, a particular argument form, a second call, ... to show).  Spread the four over "
+         "different functions of the anchored files, preferring functions and branches that the earlier, more elaborate "
+         "faults listed above did not touch.",
 }
 
 
